@@ -58,11 +58,22 @@ def check(ctx, f, tr, ts, por=True):
                'counter %s declared %s (max %d, %d bits) cannot reach %d needed by the %s comparison' % (
                    cnt, si.shape_src, maxval, si.w, N - 1, role))
         here = [a for a in ir.drivers(cnt, exact=True) if q.state_of(a) == st]
-        inc = [a for a in here if a.rhs.canon() == '1 + ' + cnt and not a.guard]
-        clr = [a for a in here if q.is_zero(a.rhs) and q.atoms(a) == q.atoms(es[0])]
-        ctx.ob('C54.count', 'PHYResetController.%s-count[%s]' % (role, tag),
-               len(inc) == 1 and len(clr) == 1 and len(here) == 2 and clr[0].order > inc[0].order, es[0].loc,
-               'the %s state counts up by one and clears the counter when its comparison hits' % role)
+        # next counter value for both outcomes of the comparison (last assignment wins; default-then-override and an
+        # explicit If/Else are the same thing): comparison hit -> 0, otherwise -> counter + 1
+        from ..fsm import lit_atoms, assignments, holds
+        cmp_atom = list(q.atoms(es[0]))[0][0]
+        ats = sorted({x for a in here for l in a.guard for x in lit_atoms(l)} | {cmp_atom})
+        okc = ats == [cmp_atom] and bool(here)
+        if okc:
+            for asg in assignments(ats):
+                fire = sorted([a for a in here if holds(a.guard, asg)], key=lambda a: a.order)
+                last = fire[-1] if fire else None
+                if asg[cmp_atom]:
+                    okc = okc and last is not None and q.is_zero(last.rhs)
+                else:
+                    okc = okc and last is not None and last.rhs.canon() == '1 + ' + cnt
+        ctx.ob('C54.count', 'PHYResetController.%s-count[%s]' % (role, tag), okc, es[0].loc,
+               'the %s state counts up by one and clears the counter when its comparison hits: %s' % (role, [q.fmt(a) for a in here]))
     trig = state_outcomes(fsm, idle, {'self.trigger': True})
     hold = state_outcomes(fsm, idle, {'self.trigger': False})
     ctx.ob('C54.idle', 'PHYResetController.idle[%s]' % tag, set(trig) == {rst} and set(hold) == {None}, fsm.state_loc[idle],
